@@ -63,7 +63,14 @@ fn gen_word(rng: &mut Rng, nl: usize, nr: usize, with_space: bool, tag: &str, i:
 }
 
 pub fn gen_bigram(rng: &mut Rng, nr: usize, nl: usize, min_k: usize, max_k: usize) -> ABigram {
-    let k = min_k + rng.below(max_k - min_k + 1);
+    gen_bigram_ext(rng, nr, nl, min_k, max_k, false)
+}
+
+/// `big`: some cost lines carry values beyond 16 bits (raw connector only: the dual
+/// connector's pre-summed part must fit in 16 bits for C07 to apply).
+pub fn gen_bigram_ext(rng: &mut Rng, nr: usize, nl: usize, min_k: usize, max_k: usize, big: bool) -> ABigram {
+    // more than 8 templates half of the time, so that the dual connector has a matrix part
+    let k = if max_k > 9 && rng.chance(1, 2) { 9 + rng.below(max_k - 8) } else { min_k + rng.below(max_k.min(8) - min_k + 1) };
     // feature pools per side; strings may be shared across positions
     let rpool: Vec<String> = ["A", "B", "C", "B1:x,y", "R\"q", "名詞"].iter().map(|s| s.to_string()).collect();
     let lpool: Vec<String> = ["a", "b", "c", "x,y", "l\"q", "動詞"].iter().map(|s| s.to_string()).collect();
@@ -78,14 +85,30 @@ pub fn gen_bigram(rng: &mut Rng, nr: usize, nl: usize, min_k: usize, max_k: usiz
             })
             .collect()
     };
-    let mut right: Vec<Vec<String>> = (1..nr).map(|_| row(rng, &rpool)).collect();
-    let mut left: Vec<Vec<String>> = (1..nl).map(|_| row(rng, &lpool)).collect();
-    // a row must not be an empty line (F16: an empty row is read as one empty feature): keep >= 1 cell
+    let rows = |rng: &mut Rng, n: usize, pool: &Vec<String>| -> Vec<Vec<String>> {
+        let mut out: Vec<Vec<String>> = vec![];
+        for _ in 0..n {
+            if !out.is_empty() && rng.chance(1, 2) {
+                // a near-copy of an earlier row: ids that share most (or all) of their features
+                let mut r = rng.pick(&out).clone();
+                if !r.is_empty() && rng.chance(2, 3) {
+                    let p = rng.below(r.len());
+                    r[p] = rng.pick(pool).clone();
+                }
+                out.push(r);
+            } else {
+                out.push(row(rng, pool));
+            }
+        }
+        out
+    };
+    let mut right = rows(rng, nr - 1, &rpool);
+    let mut left = rows(rng, nl - 1, &lpool);
+    // an empty line is read as one empty feature (see F16): keep at least one cell per row
     for r in right.iter_mut().chain(left.iter_mut()) {
         if r.is_empty() {
             r.push("*".to_string());
         }
-        // a row ending in an empty cell is read with one extra empty cell (F18): avoid until repaired
     }
     let mut cost = vec![];
     let dense = rng.chance(1, 3);
@@ -99,7 +122,12 @@ pub fn gen_bigram(rng: &mut Rng, nr: usize, nl: usize, min_k: usize, max_k: usiz
                 continue; // the pair ''/'' is outside the domain (DESIGN C07)
             }
             if dense || rng.chance(1, 4) {
-                cost.push((rf.clone(), lf.clone(), rng.range(-60, 60) as i32));
+                let c = if big && rng.chance(1, 4) {
+                    (rng.range(30000, 100000) as i32) * if rng.chance(1, 2) { 1 } else { -1 }
+                } else {
+                    rng.range(-60, 60) as i32
+                };
+                cost.push((rf.clone(), lf.clone(), c));
             }
         }
     }
@@ -172,7 +200,7 @@ pub fn gen_dict(rng: &mut Rng, cfg: &GenCfg) -> ADict {
     let kind = if cfg.conn_kind == 3 { rng.below(3) as u8 } else { cfg.conn_kind };
     let conn = match kind {
         0 => AConn::Matrix { nr, nl, mat: (0..nr * nl).map(|_| gen_cost(rng) / if rng.chance(1, 2) { 1 } else { 8 }).collect() },
-        1 => AConn::Bigram { dual: false, model: gen_bigram(rng, nr, nl, 1, 10) },
+        1 => AConn::Bigram { dual: false, model: gen_bigram_ext(rng, nr, nl, 1, 10, true) },
         _ => AConn::Bigram { dual: true, model: gen_bigram(rng, nr, nl, 1, 12) },
     };
 
